@@ -170,7 +170,7 @@ fn aliased_case(case: u64, args: &Args, ev: &mut Ev, log: &mut EventLog) {
 
 fn main() {
     let args = Args::parse("C01");
-    let n = args.budget(1500, 400000);
+    let n = args.budget(1500, 200000);
     let ev = run_sharded(&args, n, |case, ev, log| {
         if case % 25 == 6 {
             aliased_case(case, &args, ev, log)
